@@ -592,6 +592,30 @@ def run(ctx, repo, tier):
                          witness=ast.unparse((cond_calls or [None])[0].test)[:100] if cond_calls else "continue")
     else:
         ctx.ok("DOM", "C12.all_taus.every", "every lag time of the input array gets its transition matrix (no early exit, no skip)", fa.where)
+    # ---------------------------------------------------------------- the stored trajectory keeps the cell indices exactly
+    mci = repo.cls("molgri.molecules.transitions", "MSM")
+    minit = mci.find_method("__init__")
+    ctx.instance("FLOW")
+    if minit is None:
+        ctx.inconclusive("FLOW", "C12.trajectory.exact", "anchor vanished: MSM.__init__", mci.module.relpath)
+    else:
+        ctx.analysed(minit)
+        NARROW = ("float32", "float16", "half", "single", "int32", "int16", "int8", "uint8", "uint16", "uint32", "'f4'", '"f4"', "'f2'", "'i4'", "'i2'")
+        st = [n for n in ast.walk(minit.node) if isinstance(n, ast.Assign) and any(ast.unparse(t) == "self.assigned_trajectory" for t in n.targets)]
+        narrowed = [n for a in st for n in ast.walk(a.value)
+                    if (isinstance(n, ast.keyword) and n.arg == "dtype" and any(k in ast.unparse(n.value) for k in NARROW)) or
+                    (isinstance(n, ast.Call) and isinstance(n.func, ast.Attribute) and n.func.attr in ("astype", "view") and n.args and
+                     any(k in ast.unparse(n.args[0]) for k in NARROW)) or
+                    (isinstance(n, ast.Call) and ast.unparse(n.func).split(".")[-1] in ("float32", "float16", "int32", "int16", "single", "half"))]
+        if not st:
+            ctx.inconclusive("FLOW", "C12.trajectory.exact", "the trajectory is not stored by MSM.__init__", minit.where)
+        elif narrowed:
+            ctx.violate("FLOW", "C12.trajectory.exact", "the assigned trajectory is stored in a NARROWER number type: float32 represents integers "
+                        "exactly only up to 2**24 (int32 up to 2**31), so on a grid with more cells a frame is credited to a neighbouring "
+                        "cell index and the counts land in the wrong row / column", minit.where, ast.unparse(st[0])[:140],
+                        witness="cell 16777217 stored as float32 reads back as 16777216")
+        else:
+            ctx.ok("FLOW", "C12.trajectory.exact", "the assigned trajectory is stored without narrowing its number type", minit.where)
     ctx.require_instances("LIN", 10, "linear-arithmetic obligations on the window code")
     ctx.require_instances("MIRROR", 4, "count emissions")
     ctx.trust(*META["trusted"])
